@@ -8,7 +8,7 @@ import sys
 
 from .boot import MODULE_ROOTS
 
-SHARED = set()
+SHARED = {}      # id -> number of cached models it is reachable from
 STATE = {'sched': None, 'hits': 0, 'sites': {}, 'installed': 0, 'walked': {}}
 _ATOMIC = (str, bytes, int, float, bool, type(None), complex)
 
@@ -89,25 +89,40 @@ def walk(root, into):
     return n
 
 
-PINS = []
+OWN = {}        # id(model) -> (model, [ids reachable from it])   (strong reference: ids cannot be reused while listed)
+EVICTED = []    # models dropped from the cache since the last quiescent point (still possibly used by parked threads)
 
 
 def on_cache_insert(model):
-    """A model just entered the process-wide cache: everything reachable from it is shared from now on. The model is
-    pinned until the next quiescent rebuild so that ids in SHARED can never be reused by unrelated objects."""
-    PINS.append(model)
-    walk(model, SHARED)
+    """A model just entered the process-wide cache: everything reachable from it is shared from now on."""
+    if id(model) in OWN:
+        return
+    ids = set()
+    walk(model, ids)
+    OWN[id(model)] = (model, ids)
+    for i in ids:
+        SHARED[i] = SHARED.get(i, 0) + 1
+
+
+def on_evict(models):
+    EVICTED.extend(models)
+    STATE['dirty'] = True
 
 
 def rebuild(cache, force=False):
-    """Quiescent point: SHARED := objects reachable from the live cache; drop pins of evicted models. Insertions
-    keep SHARED exact by themselves, so a rebuild is only needed after an eviction (STATE['dirty'])."""
-    if not force and not STATE.get('dirty'):
-        return len(SHARED)
+    """Quiescent point: forget the models evicted since the last one (reference-counted, no re-walk of live models)."""
+    for m in EVICTED:
+        ent = OWN.pop(id(m), None)
+        if ent is None:
+            continue
+        for i in ent[1]:
+            n = SHARED.get(i, 0) - 1
+            if n <= 0:
+                SHARED.pop(i, None)
+            else:
+                SHARED[i] = n
+    del EVICTED[:]
     STATE['dirty'] = False
-    SHARED.clear()
-    del PINS[:]
     for m in cache.values():
-        PINS.append(m)
-        walk(m, SHARED)
+        on_cache_insert(m)
     return len(SHARED)
